@@ -79,10 +79,67 @@ class Interp:
                     if s["k"] == "assign" and s["place"]["l"] == 0 and not s["place"]["p"] and s["rv"]["k"] == "agg" and \
                             s["rv"].get("adt") == "std::result::Result" and s["rv"]["variant"] == "Ok":
                         arm.oks.append((x, self.o.of_operand(s["rv"]["ops"][0])))
+            self._closure_sites(arm)
             self.arms[v] = arm
         missing = [v for v in ve0["all"] if v not in ve0["edges"]]
         if missing:
             self.problems.append(f"no dedicated arm for {missing}")
+
+    PER_ITEM = ("std::iter::Iterator::map", "std::iter::Iterator::filter_map", "std::iter::Iterator::for_each",
+                "std::iter::Iterator::try_for_each", "std::iter::Iterator::flat_map", "std::iter::Iterator::try_fold",
+                "std::iter::Iterator::fold")
+
+    def _closure_sites(self, arm):
+        """Evaluations made inside a closure that the arm hands to an iterator adapter (`xs.iter().map(|x| interpret(..))`)
+        are evaluations of the arm: they are added to arm.recursive with the closure's captures resolved to the arm's own
+        values and its argument written as an element of the sequence iterated — the same description a `for` loop gets."""
+        from .collected import iter_base, subst
+        b = self.b
+        arm.closure_sites = []
+        for x in sorted(arm.blocks):
+            for st in b.blocks[x]["stmts"]:
+                if not (st["k"] == "assign" and st["rv"]["k"] == "agg" and st["rv"].get("ak") == "closure" and not st["place"]["p"]):
+                    continue
+                cdef = st["rv"]["def"]
+                cb = self.lib.fn(cdef)
+                if cb is None or not any(t["callee"] == INTERP for _, t in cb.calls()):
+                    continue
+                cl = st["place"]["l"]
+                caps = [frozenset(self.o.of_operand(op)) for op in st["rv"]["ops"]]
+                # where the closure goes
+                use = None
+                for y in sorted(arm.blocks):
+                    t = b.blocks[y]["term"]
+                    if t["k"] == "call" and any(a.get("k") in ("copy", "move") and not a.get("p") and a["l"] == cl for a in t["args"]):
+                        use = (y, t)
+                mapping = {}
+                for i, ops in enumerate(caps):
+                    mapping[("field", ("closure_env",), str(i))] = next(iter(ops)) if len(ops) == 1 else ("oneof", ops)
+                item = None
+                if use is not None and use[1]["callee"] in self.PER_ITEM:
+                    bases = set()
+                    for src in self.o.of_operand(use[1]["args"][0]):
+                        bs = iter_base(src)
+                        if bs is not None:
+                            bases.add(bs)
+                    if len(bases) == 1:
+                        item = ("elem", next(iter(bases)))
+                if item is not None:
+                    mapping[("param", 2)] = item
+                co = Origins(cb, self.lib)
+                site_blk = use[0] if use is not None else x
+                # adapters are lazy: the closure runs where the adapted iterator is consumed (collect, sum, a for loop's next)
+                if use is not None and use[1]["callee"] in ("std::iter::Iterator::map", "std::iter::Iterator::filter_map", "std::iter::Iterator::flat_map"):
+                    for y in sorted(arm.blocks):
+                        t2 = b.blocks[y]["term"]
+                        if t2["k"] == "call" and y != use[0] and t2["args"] and any(
+                                z[0] == "call" and z[1] == use[1]["callee"] and len(z) > 3 and z[3] == use[0] for z in self.o.of_operand(t2["args"][0])):
+                            site_blk = y
+                for _, t in cb.calls():
+                    if t["callee"] == INTERP:
+                        d, nd, c = ({subst(z, mapping) for z in co.of_operand(t["args"][k])} for k in range(3))
+                        arm.recursive.append((site_blk, d, nd, c))
+                        arm.closure_sites.append((site_blk, cdef, use[1]["callee"] if use else None))
 
     def res(self, field, data=DATA):
         """Predicate: term is the result of interpret(<data>, node.<field>, ctx)."""
